@@ -78,6 +78,7 @@ for seed in range(40):
                 bad.append('seed %d step %d: fire %s on %r at root %s: handlers called %r, expected %r' % (seed, step, evc.__name__, getattr(chan, 'nm', chan), r.nm, got, exp))
                 break
     if bad: break
+print('random register/unregister/addHandler/removeHandler histories (40 seeds) with a set-model oracle: %d violating' % len(bad))
 for b in bad[:4]: print(b)
 if bad: print('REPRODUCED')
 sys.exit(1 if bad else 0)
